@@ -290,4 +290,9 @@ VARIANTS = [
     {'name': 'P R3 acked ids gathered by a static helper handed the message (refac8 G2/3)', 'file': 'hippolyzer/lib/base/message/circuit.py', 'expect': 'silent', 'old': '    def collect_acks(self, message: Message):\n        effective_acks = list(message.acks)\n        if message.name == "PacketAck":\n            effective_acks.extend(x["ID"] for x in message["Packets"])\n        for ack in effective_acks:\n', 'new': '    @staticmethod\n    def _acked_ids(msg: Message) -> List[int]:\n        acked_ids = list(msg.acks)\n        if msg.name == "PacketAck":\n            acked_ids.extend(x["ID"] for x in msg["Packets"])\n        return acked_ids\n\n    def collect_acks(self, message: Message):\n        for ack in self._acked_ids(message):\n'},
     {'name': 'R3 acked-ids helper forgets the PacketAck blocks', 'file': 'hippolyzer/lib/base/message/circuit.py', 'expect': 'C19.R3', 'old': '    def collect_acks(self, message: Message):\n        effective_acks = list(message.acks)\n        if message.name == "PacketAck":\n            effective_acks.extend(x["ID"] for x in message["Packets"])\n        for ack in effective_acks:\n', 'new': '    @staticmethod\n    def _acked_ids(msg: Message) -> List[int]:\n        acked_ids = list(msg.acks)\n        return acked_ids\n\n    def collect_acks(self, message: Message):\n        for ack in self._acked_ids(message):\n'},
     {'name': 'R3 acked-ids helper takes the PacketAck blocks only when nothing is appended', 'file': 'hippolyzer/lib/base/message/circuit.py', 'expect': 'C19.R3', 'old': '    def collect_acks(self, message: Message):\n        effective_acks = list(message.acks)\n        if message.name == "PacketAck":\n            effective_acks.extend(x["ID"] for x in message["Packets"])\n        for ack in effective_acks:\n', 'new': '    @staticmethod\n    def _acked_ids(msg: Message) -> List[int]:\n        acked_ids = list(msg.acks)\n        if msg.name == "PacketAck" and not msg.acks:\n            acked_ids.extend(x["ID"] for x in msg["Packets"])\n        return acked_ids\n\n    def collect_acks(self, message: Message):\n        for ack in self._acked_ids(message):\n'},
+    # ------------------------------------------------------------------ refactor round 9
+    {'name': 'P R5 resend loop split into give-up / resend step methods (refac9 G2/3)', 'file': 'hippolyzer/lib/base/message/circuit.py', 'expect': 'silent', 'old': '            msg = copy.copy(resend_info.message)\n            resend_info.tries_left -= 1\n            # We were on our last try and we never received an ack\n            if not resend_info.tries_left:\n                logging.warning(f"Giving up on unacked {msg.packet_id}")\n                del self.unacked_reliable[(msg.direction, msg.packet_id)]\n                if not resend_info.completed.done():\n                    resend_info.completed.set_exception(TimeoutError("Exceeded resend limit"))\n                continue\n            resend_info.last_resent = _utcnow()\n            msg.send_flags |= PacketFlags.RESENT\n            try:\n                self._send_prepared_message(msg)\n            except Exception:\n                # One packet failing to go out mustn\'t keep the ones behind it from being resent\n                # or timed out, it gets its remaining tries like any other.\n                logging.exception(f"Failed to resend {msg.packet_id}")\n\n', 'new': '            msg = copy.copy(resend_info.message)\n            resend_info.tries_left -= 1\n            if not resend_info.tries_left:\n                self._give_up_resending(resend_info, msg)\n                continue\n            self._resend(resend_info, msg)\n\n    def _give_up_resending(self, resend_info, msg) -> None:\n        logging.warning(f"Giving up on unacked {msg.packet_id}")\n        del self.unacked_reliable[(msg.direction, msg.packet_id)]\n        if not resend_info.completed.done():\n            resend_info.completed.set_exception(TimeoutError("Exceeded resend limit"))\n\n    def _resend(self, resend_info, msg) -> None:\n        resend_info.last_resent = _utcnow()\n        msg.send_flags |= PacketFlags.RESENT\n        try:\n            self._send_prepared_message(msg)\n        except Exception:\n            logging.exception(f"Failed to resend {msg.packet_id}")\n\n'},
+    {'name': 'R5 split resend loop: the give-up step forgets the removal', 'file': 'hippolyzer/lib/base/message/circuit.py', 'expect': 'C19.R5', 'old': '            msg = copy.copy(resend_info.message)\n            resend_info.tries_left -= 1\n            # We were on our last try and we never received an ack\n            if not resend_info.tries_left:\n                logging.warning(f"Giving up on unacked {msg.packet_id}")\n                del self.unacked_reliable[(msg.direction, msg.packet_id)]\n                if not resend_info.completed.done():\n                    resend_info.completed.set_exception(TimeoutError("Exceeded resend limit"))\n                continue\n            resend_info.last_resent = _utcnow()\n            msg.send_flags |= PacketFlags.RESENT\n            try:\n                self._send_prepared_message(msg)\n            except Exception:\n                # One packet failing to go out mustn\'t keep the ones behind it from being resent\n                # or timed out, it gets its remaining tries like any other.\n                logging.exception(f"Failed to resend {msg.packet_id}")\n\n', 'new': '            msg = copy.copy(resend_info.message)\n            resend_info.tries_left -= 1\n            if not resend_info.tries_left:\n                self._give_up_resending(resend_info, msg)\n                continue\n            self._resend(resend_info, msg)\n\n    def _give_up_resending(self, resend_info, msg) -> None:\n        logging.warning(f"Giving up on unacked {msg.packet_id}")\n        if not resend_info.completed.done():\n            resend_info.completed.set_exception(TimeoutError("Exceeded resend limit"))\n\n    def _resend(self, resend_info, msg) -> None:\n        resend_info.last_resent = _utcnow()\n        msg.send_flags |= PacketFlags.RESENT\n        try:\n            self._send_prepared_message(msg)\n        except Exception:\n            logging.exception(f"Failed to resend {msg.packet_id}")\n\n'},
+    {'name': 'P R5 client resend pass as a synchronous method (refac9 G2/8)', 'file': 'hippolyzer/lib/client/hippo_client.py', 'expect': 'silent', 'old': '    async def _attempt_resends(self):\n        while True:\n            if self.session is None:\n                break\n            for region in self.session.regions:\n                # Not gated on `is_alive`: a circuit that is still connecting has its reliable\n                # UseCircuitCode in flight, which needs resends (and a failure when they run out) too.\n                # A disconnected circuit had its unacked table cleared, so this is a no-op for it.\n                if not region.circuit:\n                    continue\n                region.circuit.resend_unacked()\n            await asyncio.sleep(0.5)\n\n', 'new': '    def _resend_pass(self) -> bool:\n        if self.session is None:\n            return False\n        for region in self.session.regions:\n            if not region.circuit:\n                continue\n            region.circuit.resend_unacked()\n        return True\n\n    async def _attempt_resends(self):\n        while self._resend_pass():\n            await asyncio.sleep(0.5)\n\n'},
+    {'name': 'R5 client resend pass method gated on is_alive', 'file': 'hippolyzer/lib/client/hippo_client.py', 'expect': 'C19.R5', 'old': '    async def _attempt_resends(self):\n        while True:\n            if self.session is None:\n                break\n            for region in self.session.regions:\n                # Not gated on `is_alive`: a circuit that is still connecting has its reliable\n                # UseCircuitCode in flight, which needs resends (and a failure when they run out) too.\n                # A disconnected circuit had its unacked table cleared, so this is a no-op for it.\n                if not region.circuit:\n                    continue\n                region.circuit.resend_unacked()\n            await asyncio.sleep(0.5)\n\n', 'new': '    def _resend_pass(self) -> bool:\n        if self.session is None:\n            return False\n        for region in self.session.regions:\n            if not region.circuit or not region.circuit.is_alive:\n                continue\n            region.circuit.resend_unacked()\n        return True\n\n    async def _attempt_resends(self):\n        while self._resend_pass():\n            await asyncio.sleep(0.5)\n\n'},
 ]
